@@ -64,8 +64,8 @@ Proof.
 Qed.
 
 Lemma wake_fields : forall r,
-  r_req (wake r) = r_req r /\ r_leaked (wake r) = r_leaked r /\ r_at (wake r) = r_at r /\
-  r_slept_late (wake r) = r_slept_late r /\ r_stamp (wake r) = r_stamp r /\ r_waits (wake r) = r_waits r.
+  r_req (wake r) = r_req r /\ r_at (wake r) = r_at r /\
+  r_stamp (wake r) = r_stamp r /\ r_waits (wake r) = r_waits r.
 Proof. intros r; unfold wake; destruct (r_pc r); simpl; auto 10. Qed.
 
 Lemma wake_not_waiting : forall r f, r_pc (wake r) <> PWaiting f.
@@ -93,27 +93,12 @@ Proof.
   destruct Hi as [x [_ ->]]. apply H.
 Qed.
 
-(* a requester that leaked the mutex has returned *)
-Definition leak_ok (r : rstate) : Prop := r_leaked r = true -> exists resp, r_pc r = PDone resp.
-
-Lemma lstep_leak_ok : forall m w n i r o, leak_ok r -> leak_ok (fst (lstep m w n i r o)).
-Proof.
-  intros m w n i r o H. unfold lstep, leak_ok in *.
-  destruct (r_pc r) eqn:E; simpl;
-    repeat (match goal with |- context[match ?x with _ => _ end] => destruct x end; simpl);
-    try rewrite E; intros L; try discriminate;
-    try (destruct (H L) as [? X]; discriminate X); eauto.
-Qed.
-
-Lemma wake_leak_ok : forall r, leak_ok r -> leak_ok (wake r).
-Proof.
-  intros r H L. destruct (wake_fields r) as [_ [El _]]. rewrite El in L. destruct (H L) as [resp E].
-  destruct (wake_pc r) as [[f [E1 _]]|[_ E2]]; [congruence|rewrite E2; eauto].
-Qed.
-
 (* frames carry parsed (non-negative) numbers *)
 Definition frame_ok (f : frame) : Prop :=
-  match f with FBlocking _ msnint partint _ => 0 <= msnint /\ 0 <= partint | _ => True end.
+  match f with
+  | FBlocking _ msnint P _ => 0 <= msnint /\ (forall p, P = Some p -> 0 <= p)
+  | _ => True
+  end.
 
 Definition pc_frame_ok (r : rstate) : Prop :=
   match r_pc r with
@@ -141,7 +126,8 @@ Proof.
   unfold handleMediaPlaylist_pre in H. destruct (m_variant m); try (inversion H; subst; exact I).
   destruct (parseMSNPart _ _) as [[x y]|] eqn:E; [|discriminate].
   destruct (negb (is_empty _)).
-  - inversion H; subst. simpl. eapply parseMSNPart_nonneg; eauto.
+  - inversion H; subst. simpl. destruct (parseMSNPart_nonneg _ _ _ _ E) as [A B]. split; [exact A|].
+    intros p Hp. destruct (is_empty _); [discriminate|]. inversion Hp; subst. exact B.
   - destruct (negb (is_empty _)); [discriminate|]. inversion H; subst; exact I.
 Qed.
 
@@ -162,6 +148,7 @@ Proof.
   - destruct (test m (req_query (r_req r)) f); simpl; auto.
   - rewrite E; auto.
   - destruct o; simpl; rewrite ?E; auto.
+  - destruct h; exact I.
   - rewrite E; auto.
 Qed.
 
@@ -184,7 +171,7 @@ Definition mutex_inv (c : cstate) : Prop :=
 Lemma wake_holds : forall r, r_holds (wake r) = r_holds r.
 Proof.
   intros r. destruct (wake_pc r) as [[f [E1 E2]]|[_ E2]]; [|rewrite E2; reflexivity].
-  unfold r_holds. rewrite E1, E2. destruct (wake_fields r) as [_ [El _]]. exact El.
+  unfold r_holds. rewrite E1, E2. reflexivity.
 Qed.
 
 Lemma holder_reqs_ext : forall c c' i,
@@ -194,7 +181,7 @@ Proof. intros c c' i H [r [Hr Hh]]. exists r. rewrite H. auto. Qed.
 
 (* what a requester step does to "holds" and to the owner *)
 Lemma lstep_mutex : forall m w n i r o r' o',
-  leak_ok r -> lstep m w n i r o = (r', o') ->
+  lstep m w n i r o = (r', o') ->
   (* the requester holds and keeps the owner field *)
   (r_holds r = true /\ r_holds r' = true /\ o' = o) \/
   (* releases *)
@@ -204,39 +191,30 @@ Lemma lstep_mutex : forall m w n i r o r' o',
   (* not involved *)
   (r_holds r = false /\ r_holds r' = false /\ o' = o).
 Proof.
-  intros m w n i r o r' o' L H. unfold lstep in H. unfold leak_ok in L.
-  assert (NL : forall pc, r_pc r = pc -> (forall resp, pc <> PDone resp) -> r_leaked r = false).
-  { intros pc E Hn. destruct (r_leaked r) eqn:El; [|reflexivity]. destruct (L eq_refl) as [resp Er].
-    exfalso. apply (Hn resp). congruence. }
-  unfold r_holds. destruct (r_pc r) eqn:E.
-  - inversion H; subst; simpl. rewrite (NL PStart) by (auto; discriminate). right; right; right; auto.
-  - inversion H; subst; simpl. rewrite (NL (PCall h)) by (auto; discriminate).
-    destruct (call m (req_query (r_req r)) h) eqn:Ec; try (right; right; right; auto; fail);
-      unfold call in Ec; destruct h as [[|j|j id|j id|j id]|]; try discriminate;
-      destruct (handleMediaPlaylist_pre _ _); discriminate.
-  - rewrite (NL (PLock f)) by (auto; discriminate). destruct o; inversion H; subst; simpl.
-    + rewrite E, (NL (PLock f)) by (auto; discriminate). right; right; right; auto.
+  intros m w n i r o r' o' H. unfold lstep in H. unfold r_holds. destruct (r_pc r) eqn:E.
+  - inversion H; subst; simpl. right; right; right; auto.
+  - inversion H; subst; simpl.
+    destruct (call_pc m (req_query (r_req r)) h) as [[resp Ec]|[f Ec]]; rewrite Ec; right; right; right; auto.
+  - destruct o; inversion H; subst; simpl.
+    + rewrite E. right; right; right; auto.
     + right; right; left; auto.
-  - destruct (test m (req_query (r_req r)) f); inversion H; subst; simpl; auto.
-    rewrite (NL (PTest f)) by (auto; discriminate). right; left; auto.
-  - inversion H; subst r' o'. rewrite E. rewrite (NL (PWaiting f)) by (auto; discriminate).
-    right; right; right; auto.
-  - rewrite (NL (PWoken f)) by (auto; discriminate). destruct o; inversion H; subst; simpl.
-    + rewrite E, (NL (PWoken f)) by (auto; discriminate). right; right; right; auto.
+  - destruct (test m (req_query (r_req r)) f); inversion H; subst; simpl; auto 6.
+  - inversion H; subst r' o'. rewrite E. right; right; right; auto.
+  - destruct o; inversion H; subst; simpl.
+    + rewrite E. right; right; right; auto.
     + right; right; left; auto.
-  - inversion H; subst; simpl. rewrite (NL (PUnlock r0)) by (auto; discriminate). right; left; auto.
-  - inversion H; subst; simpl. rewrite (NL (PUnlockCall h)) by (auto; discriminate).
-    right; left; auto.
-  - inversion H; subst r' o'. rewrite E. destruct (r_leaked r); [left|right; right; right]; auto.
+  - inversion H; subst; simpl. right; left; auto.
+  - inversion H; subst; simpl. right; left. split; [reflexivity|]. split; [|reflexivity].
+    unfold hint_call. destruct h; reflexivity.
+  - inversion H; subst r' o'. rewrite E. right; right; right; auto.
 Qed.
 
-Lemma mutex_inv_rstep : forall c i,
-  reqs_all leak_ok c -> mutex_inv c -> mutex_inv (rstep c i).
+Lemma mutex_inv_rstep : forall c i, mutex_inv c -> mutex_inv (rstep c i).
 Proof.
-  intros c i L [I1 I2].
+  intros c i [I1 I2].
   destruct (rstep_shape c i) as [[_ E]|[r [Hr E]]]; rewrite E; [split; assumption|].
   destruct (lstep (c_mux c) (c_wpc c) (c_progress c) i r (c_owner c)) as [r' o'] eqn:El; simpl fst; simpl snd.
-  pose proof (lstep_mutex _ _ _ _ _ _ _ _ (L i r Hr) El) as Hm.
+  pose proof (lstep_mutex _ _ _ _ _ _ _ _ El) as Hm.
   assert (Hw : w_holds (c_wpc c) = true -> c_owner c = Some TW) by (intros; apply (I2 TW); assumption).
   assert (Hi : r_holds r = true -> c_owner c = Some (TR i)) by (intros; apply (I2 (TR i)); exists r; auto).
   assert (Hoi : c_owner c = Some (TR i) -> r_holds r = true)
@@ -329,12 +307,11 @@ Proof.
   - congruence.
 Qed.
 
-Lemma mutex_inv_step : forall c t,
-  reqs_all leak_ok c -> mutex_inv c -> mutex_inv (step c t).
+Lemma mutex_inv_step : forall c t, mutex_inv c -> mutex_inv (step c t).
 Proof.
-  intros c t L I. unfold step.
+  intros c t I. unfold step.
   destruct (c_wpc c) eqn:Ew; try exact I;
-    (destruct t as [|i]; [apply mutex_inv_wstep; [congruence|exact I]|apply mutex_inv_rstep; assumption]).
+    (destruct t as [|i]; [apply mutex_inv_wstep; [congruence|exact I]|apply mutex_inv_rstep; exact I]).
 Qed.
 
 Lemma mutex_inv_init : forall m prog reqs, mutex_inv (cinit m prog reqs).
